@@ -247,7 +247,7 @@ def run(chk):
         'observed-data (2.0) member dictionary property: nested objects': lambda n: '{"type": "observed-data", "id": "observed-data--%s", %s, "first_observed": "2015-12-21T19:59:11.000Z", "last_observed": "2015-12-21T19:59:11.000Z", "number_observed": 1, "objects": {"0": {"type": "email-message", "is_multipart": false, "additional_header_fields": {"X": %s}}}}' % (U, TS, objn(n)),
         'selector list: nested arrays': lambda n: ident(', "granular_markings": [{"marking_ref": "marking-definition--613f2e26-407d-48c7-9eca-b8e91df99dc9", "selectors": %s}]' % arr(n)),
     }
-    depths = (200, 450, 700, 950, 1200, 1450) if chk.tier == 'thorough' else (450, 950, 1400)
+    depths = (100, 200, 300, 400, 450, 500, 600, 700, 800, 950, 1100, 1200, 1300, 1400, 1450) if chk.tier == 'thorough' else (150, 300, 450, 600, 750, 950, 1200, 1400)
 
     def nest_cases():
         for site in NEST_SITES:
